@@ -214,6 +214,16 @@ func cmdRun(args []string) int {
 
 var runProp string
 
+// buildTags: harness files are guarded by tag verif; job flag "big" selects the larger universe.
+func buildTags(flags []string) string {
+	for _, f := range flags {
+		if f == "big" {
+			return "verif,verifbig"
+		}
+	}
+	return "verif"
+}
+
 func loadKnownSpecs() []KnownSpec {
 	b, err := os.ReadFile(filepath.Join(verifRoot(), "known_findings.json"))
 	if err != nil {
@@ -244,7 +254,7 @@ func runEntry(res *RunResult, dir, hdir, entry, smtlog string, unroll, cross int
 	}
 	overlay := harnessFiles(pkgDir, filepath.Join(verifRoot(), "harness", hdir), pkgName)
 	cfg := &packages.Config{Mode: packages.LoadAllSyntax, Dir: pkgDir, Overlay: overlay,
-		BuildFlags: []string{"-tags=verif", "-modfile=" + modfile},
+		BuildFlags: []string{"-tags=" + buildTags(flags), "-modfile=" + modfile},
 		Env:        append(os.Environ(), "GOFLAGS=-mod=mod", "GOPROXY=off", "GOSUMDB=off", "GOTOOLCHAIN=local")}
 	pkgs, err := packages.Load(cfg, ".")
 	if err != nil {
